@@ -73,10 +73,7 @@ Proof.
       destruct (of_res (set_item_mt A o acc k (Leaf New (VNew a)))); cbn [mbind]; try reflexivity. apply IHr.
     + match goal with |- mbind ?x _ = mbind ?x _ => destruct x as [out_k| | | |] end; cbn [mbind]; try reflexivity.
       destruct t as [s v|io d im|io im g]; [reflexivity| |].
-      * destruct (o_inplace o).
-        -- destruct (of_res (set_item_mt A o acc k (NonT io d im))); cbn [mbind]; try reflexivity. apply IHr.
-        -- destruct (of_res (nont_rebuild A o d im out_k)) as [v| | | |]; cbn [mbind]; try reflexivity.
-           destruct (of_res (set_item_mt A o acc k v)); cbn [mbind]; try reflexivity. apply IHr.
+      * destruct (of_res (set_item_mt A o acc k (nont_apply A o d im out_k))); cbn [mbind]; try reflexivity. apply IHr.
       * destruct (of_res (rebuild_init A o io im g out_k None)) as [init| | | |]; cbn [mbind]; try reflexivity.
         rewrite IHt.
         destruct (rebuild_items A o l2 out_k g g sub init false) as [[acc' any']| | | |]; cbn [mbind]; try reflexivity.
@@ -107,10 +104,7 @@ Qed.
 
 (* ------------------------------------------------------------------ thread-pool form = single-threaded form
    for every point of the option lattice (out=, default=, filter_empty None / True / False, names=, overrides, checked,
-   call_on_nested, named ...) — outside two corners that concern non-tensor entries and in-place calls:
-     * a non-tensor entry together with out= or inplace (C20-f: the single-threaded form keeps out's entry / re-sets a copy,
-       the thread-pool form writes self's entry),
-     * inplace together with default= (the stand-in self.empty(recurse=True) is taken before / while self is written). *)
+   call_on_nested, named ...), non-tensor entries, in-place calls and out= included (since the repair of C20-g). *)
 Section Fusion.
 
 Definition unopt (sm : meta) (names : option dnames) (acc : option racc) : racc :=
@@ -188,8 +182,8 @@ Qed.
 
 Definition fusion_at (items : forest) : Prop :=
   forall con prefix sm sf others out names base acc any,
-    (o_inplace o = true -> nont_free items = true /\ acc <> None) ->
-    (out <> None -> nont_free items = true /\ acc <> None) ->
+    (o_inplace o = true -> acc <> None) ->
+    (out <> None -> acc <> None) ->
     lock_inv (unopt sm names acc) ->
     match flat_items A o (o_default o) con prefix sm sf others items base with
     | Ok (tasks, lfs) =>
@@ -216,8 +210,8 @@ Definition mt_step log out sf k rest lr sm names acc any (t : option tree) : mre
 
 Lemma step_fusion con prefix sm sf others out names k rest acc any base' t :
   fusion_at rest ->
-  (o_inplace o = true -> nont_free rest = true /\ acc <> None) ->
-  (out <> None -> nont_free rest = true /\ acc <> None) ->
+  (o_inplace o = true -> acc <> None) ->
+  (out <> None -> acc <> None) ->
   lock_inv (unopt sm names acc) ->
   match flat_items A o (o_default o) con prefix sm sf others rest base' with
   | Ok (tr, lr) =>
@@ -232,10 +226,8 @@ Proof.
   - destruct (set_item A o (unopt sm names acc) k v) as [acc'| |] eqn:Eset; cbn [bind].
     + assert (Hl' : lock_inv (unopt sm names (Some acc'))).
       { intros Hi Hc. cbn [unopt]. rewrite (set_item_meta _ _ _ _ Hc Eset). now apply Hl. }
-      assert (Hip2 : o_inplace o = true -> nont_free rest = true /\ Some acc' <> None).
-      { intro Hi. destruct (Hip Hi) as (N & _). split; [exact N|discriminate]. }
-      assert (Hop2 : out <> None -> nont_free rest = true /\ Some acc' <> None).
-      { intro Ho. split; [apply (Hop Ho)|discriminate]. }
+      assert (Hip2 : o_inplace o = true -> Some acc' <> None) by discriminate.
+      assert (Hop2 : out <> None -> Some acc' <> None) by discriminate.
       specialize (IHr con prefix sm sf others out names base' (Some acc') true Hip2 Hop2 Hl').
       destruct (flat_items A o (o_default o) con prefix sm sf others rest base') as [[tr lr]| |]; [|exact IHr|exact IHr].
       intros log Hlog. destruct (IHr log Hlog) as [S1 S2].
@@ -266,10 +258,7 @@ Proof.
   - intros con prefix sm sf others out names base acc any _ _ Hl. cbn [flat_items]. intros log _. cbn [apply_items same_outcome rebuild_items].
     split; [reflexivity|]. intros r a H. inv H. split; [exact Hl|auto].
   - intros k item IHt rest IHr con prefix sm sf others out names base acc any Hip Hop Hl.
-    assert (Hip' : o_inplace o = true -> nont_free rest = true /\ acc <> None).
-    { intro Hi. destruct (Hip Hi) as (Hnf & Ha). cbn [nont_free] in Hnf. apply andb_true_iff in Hnf. tauto. }
-    assert (Hop' : out <> None -> nont_free rest = true /\ acc <> None).
-    { intro Ho. destruct (Hop Ho) as (Hnf & Ha). cbn [nont_free] in Hnf. apply andb_true_iff in Hnf. tauto. }
+    pose proof Hip as Hip'. pose proof Hop as Hop'.
     cbn [flat_items apply_items].
     change (fun t : option tree =>
               match t with
@@ -283,20 +272,20 @@ Proof.
       (* out[key]: read from the object being written, in both forms *)
       assert (Eout : match out, acc with Some _, Some a => if o_inplace o then out else Some (acc_tree A a) | _, _ => out end
                      = match out with Some _ => if o_inplace o then out else Some (acc_tree A (unopt sm names acc)) | None => None end).
-      { destruct out as [X|]; [|reflexivity]. destruct acc as [a|]; [reflexivity|]. exfalso. destruct (Hop ltac:(discriminate)) as (_ & Ha). now apply Ha. }
+      { destruct out as [X|]; [|reflexivity]. destruct acc as [a|]; [reflexivity|]. exfalso. now apply (Hop ltac:(discriminate)). }
       destruct item as [s v|io d im|io im g].
       * intros x Hx. destruct (out_child A _ k); discriminate.
-      * (* a non-tensor entry: no task; neither in place nor with out= here *)
+      * (* a non-tensor entry: no task; both forms write the same copy of self's entry *)
         cbn [bind fst snd List.length app]. rewrite Nat.add_0_r.
-        assert (Hi : o_inplace o = false).
-        { destruct (o_inplace o) eqn:Ei; [|reflexivity]. destruct (Hip eq_refl) as (Hnf & _). cbn [nont_free] in Hnf. discriminate. }
-        assert (Ho : out = None).
-        { destruct out; [|reflexivity]. destruct (Hop ltac:(discriminate)) as (Hnf & _). cbn [nont_free] in Hnf. discriminate. }
-        subst out. cbn [out_child bind].
-        pose proof (step_fusion con prefix sm sf others None names k rest acc any base (Some (nont_apply A o d im None)) IHr Hip' Hop' Hl) as S.
+        rewrite Eout. clear Eout.
+        set (out_now := match out with Some _ => if o_inplace o then out else Some (acc_tree A (unopt sm names acc)) | None => None end).
+        destruct (out_child A out_now k) as [out_k| |] eqn:Eok; cbn [bind].
+        2:{ dflat. intros log _. split; [|discriminate]. cbn [rebuild_items same_outcome]. fold out_now. rewrite Eok. reflexivity. }
+        2:{ dflat. intros log _. split; [|discriminate]. cbn [rebuild_items same_outcome]. fold out_now. rewrite Eok. reflexivity. }
+        pose proof (step_fusion con prefix sm sf others out names k rest acc any base (Some (nont_apply A o d im out_k)) IHr Hip' Hop' Hl) as S.
         destruct (flat_items A o (o_default o) con prefix sm sf others rest base) as [[tr lr]| |]; cbn [bind]; [|exact S|exact S].
         intros log Hlog. cbn [fst snd app] in Hlog. destruct (S log Hlog) as [S1 S2]. split; [|exact S2].
-        cbn [rebuild_items out_child of_res mbind]. rewrite Hi. cbn [nont_rebuild of_res mbind]. exact S1.
+        cbn [rebuild_items]. fold out_now. rewrite Eok. cbn [of_res mbind]. exact S1.
       * (* a nested tensordict *)
         rewrite Eout. clear Eout.
         set (out_now := match out with Some _ => if o_inplace o then out else Some (acc_tree A (unopt sm names acc)) | None => None end).
@@ -311,10 +300,8 @@ Proof.
         2:{ dflat. dflat. intros log _. split; [|discriminate]. cbn [rebuild_items same_outcome]. fold out_now. rewrite Eok. cbn [of_res mbind].
             unfold rebuild_init. rewrite Einit. reflexivity. }
         destruct (level_init_props io im g out_k init Einit) as (P1 & P2 & P3).
-        assert (Hipg : o_inplace o = true -> nont_free g = true /\ init <> None).
-        { intro Hi. destruct (Hip Hi) as (Hnf & _). cbn [nont_free] in Hnf. apply andb_true_iff in Hnf. split; [tauto|now apply P2]. }
-        assert (Hopg : out_k <> None -> nont_free g = true /\ init <> None).
-        { intro Hk. destruct (Hop (Hokn Hk)) as (Hnf & _). cbn [nont_free] in Hnf. apply andb_true_iff in Hnf. split; [tauto|now apply P1]. }
+        assert (Hipg : o_inplace o = true -> init <> None) by exact P2.
+        assert (Hopg : out_k <> None -> init <> None) by exact P1.
         specialize (IHt false (prefix ++ [k])%list im g others' out_k None base init false Hipg Hopg (P3 None)).
         destruct (flat_items A o (o_default o) false (prefix ++ [k]) im g others' g base) as [[tg lg]| |]; cbn [bind fst snd].
         2:{ intros x Hx. apply bind_ok' in Hx. destruct Hx as (y & Hy & _). apply bind_ok' in Hy. destruct Hy as (z & Hz & _). exact (IHt z Hz). }
@@ -358,8 +345,6 @@ Qed.
    single-threaded form returns (result or exception class) whenever all operand lookups succeed; when a lookup fails
    neither form returns. *)
 Theorem mt_equals_st : forall con propagate so sm sf others out names pi,
-  (o_inplace o = true -> nont_free sf = true) ->
-  (out <> None -> nont_free sf = true) ->
   (forall tasks lfs, flat_items A o (o_default o) con [] sm sf others sf 0 = Ok (tasks, lfs) ->
                      forall id, id < List.length tasks -> In id pi) ->
   match flat_items A o (o_default o) con [] sm sf others sf 0 with
@@ -369,15 +354,11 @@ Theorem mt_equals_st : forall con propagate so sm sf others out names pi,
                    /\ mt_front A o fn con propagate (Node so sm sf) others out names pi <> MOk r
   end.
 Proof.
-  intros con propagate so sm sf others out names pi Hnf Hout Hall.
+  intros con propagate so sm sf others out names pi Hall.
   unfold mt_front, st_front, front, apply_nest.
   destruct (level_init A o so sm sf out) as [init| |] eqn:Einit.
   - destruct (level_init_props so sm sf out init Einit) as (P1 & P2 & P3).
-    assert (Hip : o_inplace o = true -> nont_free sf = true /\ init <> None).
-    { intro Hi. split; [now apply Hnf|now apply P2]. }
-    assert (Hop : out <> None -> nont_free sf = true /\ init <> None).
-    { intro Ho. split; [now apply Hout|now apply P1]. }
-    pose proof (fusion sf con [] sm sf others out names 0 init false Hip Hop (P3 names)) as F.
+    pose proof (fusion sf con [] sm sf others out names 0 init false P2 P1 (P3 names)) as F.
     cbn [bind].
     destruct (flat_items A o (o_default o) con [] sm sf others sf 0) as [[tasks lfs]|e|] eqn:Efl.
     + specialize (Hall tasks lfs eq_refl). cbn [of_res mbind fst snd].
